@@ -30,6 +30,9 @@ package momentum
 //@ ensures[C01] "ad-aligned" forall k :: 0 <= k && k < len(result1) ==> result1[k] == adS(highs, lows, closings, volumes)[k + c.LongEma.Period - 1]
 
 // the lagging span is documented as the closing shifted LaggingPeriod back; all five outputs must obey the warm-up law
+// Conversion Line = (9-Period High + 9-Period Low) / 2, Base Line = (26-Period High + 26-Period Low) / 2,
+// Leading Span A = (Conversion Line + Base Line) / 2, Leading Span B = (52-Period High + 52-Period Low) / 2,
+// Lagging Span = Closing of LaggingPeriod bars earlier (0 while there is none), all at the bar k + LeadingPeriod - 1
 //@ func IchimokuCloud.Compute
 //@ requires i.ConversionMax.Period >= 1 && i.ConversionMin.Period == i.ConversionMax.Period && i.BaseMax.Period >= i.ConversionMax.Period && i.BaseMin.Period == i.BaseMax.Period && i.LeadingMax.Period >= i.BaseMax.Period && i.LeadingMin.Period == i.LeadingMax.Period && i.LaggingPeriod >= 0 && consumed(highs) == 0 && consumed(lows) == 0 && consumed(closings) == 0 && len(highs) == len(lows) && len(highs) == len(closings)
 //@ ensures[C02] len(result0) == max(0, len(highs) - (i.IdlePeriod())) && len(result1) == max(0, len(highs) - (i.IdlePeriod())) && len(result2) == max(0, len(highs) - (i.IdlePeriod())) && len(result3) == max(0, len(highs) - (i.IdlePeriod()))
@@ -40,6 +43,15 @@ package momentum
 //@ ensures[C04] forall kk :: 0 <= kk && kk < len(result2) ==> hor(result2, kk) <= max(hor(highs, kk + (i.IdlePeriod())), max(hor(lows, kk + (i.IdlePeriod())), hor(closings, kk + (i.IdlePeriod()))))
 //@ ensures[C04] forall kk :: 0 <= kk && kk < len(result3) ==> hor(result3, kk) <= max(hor(highs, kk + (i.IdlePeriod())), max(hor(lows, kk + (i.IdlePeriod())), hor(closings, kk + (i.IdlePeriod()))))
 //@ ensures[C04] forall kk :: 0 <= kk && kk < len(result4) ==> hor(result4, kk) <= max(hor(highs, kk + (i.IdlePeriod())), max(hor(lows, kk + (i.IdlePeriod())), hor(closings, kk + (i.IdlePeriod()))))
+//@ use wmax_cong(highsSplice[0], highs, _, _)
+//@ use wmax_cong(highsSplice[1], highs, _, _)
+//@ use wmax_cong(highsSplice[2], highs, _, _)
+//@ use wmin_cong(lowsSplice[0], lows, _, _)
+//@ use wmin_cong(lowsSplice[1], lows, _, _)
+//@ use wmin_cong(lowsSplice[2], lows, _, _)
+//@ ensures[C01] "conversion-base" forall k :: 0 <= k && k < len(result0) ==> result0[k] == (wmaxS(highs, k + i.LeadingMax.Period - i.ConversionMax.Period, k + i.LeadingMax.Period) + wminS(lows, k + i.LeadingMax.Period - i.ConversionMax.Period, k + i.LeadingMax.Period)) / 2 && result1[k] == (wmaxS(highs, k + i.LeadingMax.Period - i.BaseMax.Period, k + i.LeadingMax.Period) + wminS(lows, k + i.LeadingMax.Period - i.BaseMax.Period, k + i.LeadingMax.Period)) / 2
+//@ ensures[C01] "leading-spans" forall k :: 0 <= k && k < len(result2) ==> result2[k] == (result0[k] + result1[k]) / 2 && result3[k] == (wmaxS(highs, k + i.LeadingMax.Period - i.LeadingMax.Period, k + i.LeadingMax.Period) + wminS(lows, k + i.LeadingMax.Period - i.LeadingMax.Period, k + i.LeadingMax.Period)) / 2
+//@ ensures[C01] "lagging-span" forall k :: 0 <= k && k < len(result4) && k < len(result0) ==> result4[k] == (k + i.LeadingMax.Period - 1 >= i.LaggingPeriod ? closings[k + i.LeadingMax.Period - 1 - i.LaggingPeriod] : 0)
 
 // PPO = ((EMA(shortPeriod, prices) - EMA(longPeriod, prices)) / EMA(longPeriod, prices)) * 100 at one bar,
 // Signal = EMA(9, PPO), Histogram = PPO - Signal   (PVO: the same over volumes)
